@@ -5,6 +5,7 @@ import ShellOp.Props.C07
 import ShellOp.Proofs.SnapshotCache
 import ShellOp.Generated.Trans
 import ShellOp.Model.Retry
+import ShellOp.Proofs.EventFlow
 /-!
 # C01 — no cluster change is lost between Synchronization and later Events
 
@@ -675,3 +676,84 @@ example :
   decide
 
 end ShellOp.SnapshotCache.C01
+
+
+/-!
+## From the event to the run, and the shared informer behind the bindings (fifth wave)
+
+`Model/EventFlow`: the single consumer (`ManagerEventsHandler.Start`) appends one tail task per event
+with `AddLast` — unconditionally —, the worker's run reads its snapshots when it starts and its task
+stays in the queue until the run has succeeded; the shared informer of a `FactoryStore` entry runs on
+the factory's context. Tied to the code by the skeletons `ManagerEventsHandler.Start`,
+`c02.FactoryStore.Start`, `c02.FactoryStore.Stop` (T3) and by the operator / manager suites of the
+harness (held later executions; monitors joining and leaving one shared informer).
+-/
+namespace ShellOp.EventFlow.C01
+
+open ShellOp.EventFlow
+
+/-- **C01 (group form: "is followed by a Group execution whose snapshots reflect it").** For every
+interleaving of informer callbacks (`change`), the consumer of the event channel (`consume`) and
+the queue worker (`begin` with any number of merged followers, `finish`, `fail` + retry): when
+nothing is on its way and the queue is empty, the run that started last read its snapshots after the
+last change — every change has been followed by a run that reflects it, also a change that arrived
+while a run of the same group was being executed and was the only task of its queue. -/
+theorem every_change_followed_by_a_run (sched : List Tail.Act) :
+    Tail.AtRest (Tail.run Tail.addLast {} sched) →
+    (Tail.run Tail.addLast {} sched).seen = (Tail.run Tail.addLast {} sched).ver := by
+  have g := Tail.covered_run {} sched Tail.covered_init
+  generalize Tail.run Tail.addLast {} sched = s at g
+  rintro ⟨hp, hq⟩
+  rcases g.cov with h | h | h
+  · exact h
+  · exact absurd hp h
+  · exfalso; apply h; unfold Tail.waiting; rw [hq]; simp
+
+/-- non-vacuity: a change arrives while the run for the previous one is being executed and is the
+only task of the queue; rest is reached, two changes, the last run has seen both -/
+example :
+    let s := Tail.run Tail.addLast {} [.change 7, .consume, .begin 0, .change 7, .consume, .finish, .begin 0, .finish]
+    Tail.AtRest s ∧ s.ver = 2 ∧ s.seen = 2 := by decide
+
+/-- the same with a failing run in between and a run that merges its follower -/
+example :
+    let s := Tail.run Tail.addLast {} [.change 7, .consume, .change 7, .begin 0, .consume, .fail, .begin 5, .finish]
+    Tail.AtRest s ∧ s.ver = 2 ∧ s.seen = 2 := by decide
+
+/-- **Witness (not the code).** "Do not queue a task when the queue already ends with a task of the
+same hook and group": the last task may be the one that is being executed and has read its snapshots
+already — the change is never followed by a run. -/
+theorem skipping_behind_the_running_task_loses_the_change :
+    let s := Tail.run Tail.addUnlessLastHasKey {} [.change 7, .consume, .begin 0, .change 7, .consume, .finish]
+    Tail.AtRest s ∧ s.ver = 2 ∧ s.seen = 1 := by decide
+
+/-- **C01 ("every later change … reaches the hook", all binding configurations: bindings with equal
+kind / namespace / selectors share one informer).** For every sequence of resource informers of one
+factory index starting and stopping (StopMonitor, namespace deleted, restart): an informer whose
+handler is registered is served by a RUNNING shared informer — whichever informer started it and
+whichever of its siblings have gone. -/
+theorem shared_informer_runs_while_served (ops : List Shared.Op) (i : Nat) :
+    Shared.served (Shared.run Shared.bindFactory {} ops) i = true →
+    Shared.running (Shared.run Shared.bindFactory {} ops) = true := by
+  have g := Shared.bound_run {} ops (by intro f h; simp at h)
+  generalize Shared.run Shared.bindFactory {} ops = s at g
+  unfold Shared.served Shared.running
+  cases hf : s.fac with
+  | none => simp
+  | some f => intro _; simp [g f hf]
+
+/-- non-vacuity: the informer that started the shared informer leaves, the other one is still served -/
+example :
+    let s := Shared.run Shared.bindFactory {} [.start 1, .start 2, .stop 1]
+    Shared.served s 2 = true ∧ Shared.served s 1 = false ∧ Shared.running s = true := by decide
+
+/-- **Witness (not the code).** `Run` bound to the context of the caller of `Start`: when the informer
+that happened to start the shared informer stops, its sibling stays registered with a shared informer
+that has stopped — it never hears of a change again. Stopping the one that joined is harmless. -/
+theorem run_bound_to_first_starter_goes_deaf :
+    (let s := Shared.run Shared.bindCaller {} [.start 1, .start 2, .stop 1]
+     Shared.served s 2 = true ∧ Shared.running s = false) ∧
+    (let s := Shared.run Shared.bindCaller {} [.start 1, .start 2, .stop 2]
+     Shared.served s 1 = true ∧ Shared.running s = true) := by decide
+
+end ShellOp.EventFlow.C01
